@@ -47,6 +47,15 @@ def check(h):
     out += check_wire(h)
     if h.desc.get('single_fault'):
         out += check_repair(h)
+    if h.desc.get('must_succeed') and not h.w.plan.fired and not h.timed_fired:
+        for r in h.reqs:
+            outs = txn.outcomes_of(h, r)
+            if not (len(outs) == 1 and outs[0][2] == 'ack'):
+                c = h.cfgs[r.c]
+                segs = max(txn.seg_count(txn.pt_service_len(r.rq), c['maxApdu']), txn.seg_count(txn.pt_service_len(r.rs), c['maxApdu']))
+                out.append({'clause': 'C05.c', 'detail': 'fault-free transfer (request %d / response %d octets, max-APDU %d, windows %d/%d, %d segments) did not succeed: %r'
+                            % (r.rq, r.rs, c['maxApdu'], c['win'], h.cfgs[r.s]['win'], segs, [(o[2], o[3]) for o in outs]),
+                            'sigkey': 'fault-free-failure', 'sig': {'kind': 'fault-free-failure', 'segments': '>256' if segs > 256 else '<=256'}})
     return out
 
 
@@ -306,16 +315,10 @@ def run_lengths(unit, agg):
     seed, maxapdu, dirn = unit['seed'], unit['maxApdu'], unit['dir']
     for n in range(unit['lo'], unit['hi']):
         rq, rs = (n, 3) if dirn == 'rq' else (3, n)
-        d = base_desc(seed, maxapdu, rq, rs, unit['win'], unit['win'], maxsegs=unit.get('maxsegs', 64))
+        d = base_desc(seed, maxapdu, rq, rs, unit['win'], unit.get('win_s', unit['win']), maxsegs=unit.get('maxsegs', 64))
+        d['must_succeed'] = True
         h = txn.execute(d)
         c04._account(agg, h, d, check, trivial_ok=True)
-        # strict fault-free expectation: success
-        outs = [o for r in h.reqs for o in txn.outcomes_of(h, r)]
-        if not (len(outs) == 1 and outs[0][2] == 'ack'):
-            agg.violation({'clause': 'C05.c', 'detail': 'fault-free transfer of %d octets (%s, max-APDU %d, window %d) did not succeed: %r'
-                           % (n, dirn, maxapdu, unit['win'], [(o[2], o[3]) for o in outs]),
-                           'sigkey': 'fault-free-failure', 'sig': {'kind': 'fault-free-failure',
-                                                                   'segments': '>256' if txn.seg_count(txn.pt_service_len(n), maxapdu) > 256 else '<=256'}}, d)
 
 
 def run_singles(unit, agg):
@@ -450,6 +453,9 @@ def units(tier, seed):
         for dirn in ('rq', 'rs'):
             for win in ((2, 8) if tier == 'quick' else (1, 2, 8)):
                 us.append({'kind': 'lengths', 'must': True, 'seed': seed, 'maxApdu': 50, 'dir': dirn, 'win': win, 'lo': n, 'hi': n + 1,
+                           'maxsegs': 1000})
+            for (wc, ws) in (((3, 7), (7, 3)) if tier == 'quick' else ((3, 7), (7, 3), (5, 4), (6, 8))):
+                us.append({'kind': 'lengths', 'must': True, 'seed': seed, 'maxApdu': 50, 'dir': dirn, 'win': wc, 'win_s': ws, 'lo': n, 'hi': n + 1,
                            'maxsegs': 1000})
     nu = 3000 if tier == 'thorough' else 300
     for k in range(nu):
